@@ -52,6 +52,10 @@ CLAIMS = {
             "are used before anything mutates the probe sets, StripedSet::internal_resize moves every element of every old bucket once into "
             "bucket(hash(element)) of the new table and frees the old table afterwards, every bucket adapter/policy inserts the moved item "
             "exactly once. SplitList/Feldman growth is not covered here.", PATHS, "DESIGN.md §4 C17"),
+    "C20": ("other", "Path-effect consistency over every container member that touches the item counter: counter changed at most once and only on "
+            "success paths, success/new-item paths change it (elimination paths exempt), update functor flag bNew agrees with the returned pair "
+            "and with counting, no callback or counter change on failing paths. Agreement with std:: reference models over call sequences is "
+            "not decided.", "static analysis: path tables (value numbering) over all counter-changing members", "DESIGN.md §4 C20"),
     "C21": ("other", "Path rules over the three free lists: tag = expected.tag+1 recomputed per attempt and correct linking (TaggedFreeList); "
             "successor read only under a successful reference increment on a non-zero count, every increment released exactly once (-2 on win, -1 "
             "on loss with re-add of a last-reference node), put adds only at count 0, publication after initialisation (FreeList); cache cells "
@@ -84,7 +88,8 @@ CLAIMS = {
     "C28": ("other", "Agreement rules over the Feldman multi-level array: head level addressed with head_node_size_log bits, deeper levels with "
             "array_node_size_log bits by traverse and expand_slot alike (from the traversal's bit offset), node sizes = 1 << the same widths and "
             "allocated accordingly, expand_slot stores the displaced item before publishing and never leaves a conversion unfinished, "
-            "'exhausted' failures only under eos(). NOT decided: that metrics::make's normalisation consumes all hash bits exactly.",
+            "'exhausted' failures only under eos(); the head width published by metrics::make is the one for which the function's own divisibility "
+            "test held (or its rounded value). NOT decided: the arithmetic lemma behind the rounding itself.",
             "static analysis: path rules + affine forms (reader/writer width agreement)", "DESIGN.md §4 C28"),
 }
 
